@@ -30,3 +30,4 @@ def run(chk):
     chk.require('guard_page_evals', 1000)
     chk.require('jenkins_eq_LE', GRID)
     chk.min_cases = GRID
+    chk.coverage(vf.build_harness('c18', 'cov', ['c18.c']), 80, ['src/builtin_hashes.c'])
